@@ -103,7 +103,14 @@ class Canonicalizer:
                 return numerator
             if numerator == denominator:
                 return One()
-            return numerator / denominator  # TODO
+            rv = numerator / denominator
+            # the division can flatten compound fractions, so check the trivial cases again
+            if isinstance(rv, Fraction):
+                if isinstance(rv.denominator, One):
+                    return rv.numerator
+                if rv.numerator == rv.denominator:
+                    return One()
+            return rv
         elif isinstance(expression, One | Zero):
             return expression
         else:
